@@ -181,8 +181,8 @@ def run(ctx: Ctx):
     ctx.notes["phase_s"] = {"tlc": round(ctx.elapsed(), 1)}
     ctx.exhaustive = True  # the bounded models were enumerated completely
 
-    jobs = [("model", h) for h in model_h] + [("directed", h) for h in cl.directed_histories()]
-    jobs += [("rand", ctx.seed * 1000003 + i) for i in range(500 if q else 20000)]
+    jobs = [("directed", h) for h in cl.directed_histories()] + [("rand", ctx.seed * 1000003 + i) for i in range(500 if q else 20000)]
+    jobs += [("model", h) for h in model_h]
     results = pmap(_dispatch, jobs, workers=ctx.workers, chunksize=64)
     hists = [r[0] for r in results]
     ctx.notes["phase_s"]["run"] = round(ctx.elapsed(), 1)
@@ -200,7 +200,7 @@ def run(ctx: Ctx):
     ctx.notes["phase_s"]["judge"] = round(ctx.elapsed(), 1)
     ctx.notes["lines"] = dict(collections.Counter(ln["flow"] for ln in lines))
     ctx.notes["histories"] = dict(collections.Counter(j[0] for j in jobs))
-    ctx.notes["drift_kinds"] = dict(collections.Counter(d.get("what", "?") for d in ctx.model_drift))
+    ctx.notes["drift_kinds_first_50"] = dict(collections.Counter(d.get("what", "?") for d in ctx.model_drift))
     tot = [sum(x) for x in zip(*[_features(p) for p in per])]
     ctx.notes["observed"] = {"requests_with_cookies": tot[0], "redirect_responses": tot[1], "opens_that_raised": tot[2]}
     for h, p in list(zip(hists, per))[-3:]:
